@@ -257,6 +257,44 @@ class PyList(Model):
     return SymSeq(ty, t)
 
 
+class AnyValue(Model):
+  """A value about which nothing is known (used when a loop body re-assigns a local that the loop
+  contract does not describe): every observation answers with a fresh unconstrained result."""
+  def __init__(self, hint='any'):
+    self.hint = hint
+    self._none = None
+    self.ghost = True
+
+  def is_none(self, ip):
+    if self._none is None:
+      self._none = ip.ctx.fresh(z3.BoolSort(), self.hint + '.is_none')
+    return self._none
+
+  def py___bool__(self, ip):
+    return ip.ctx.fresh(z3.BoolSort(), self.hint + '.truth')
+
+  def py___eq__(self, ip, other):
+    if other is None:
+      return self.is_none(ip)
+    return ip.ctx.fresh(z3.BoolSort(), self.hint + '.eq')
+
+  def py___float__(self, ip):
+    k = ip.ctx.choose(3, 'float(any)')
+    if k == 1:
+      raise PyRaise(ExcVal('TypeError', ()))
+    if k == 2:
+      raise PyRaise(ExcVal('ValueError', ()))
+    return ip.ctx.fresh(z3.RealSort(), self.hint + '.float')
+
+  def py___int__(self, ip):
+    k = ip.ctx.choose(3, 'int(any)')
+    if k == 1:
+      raise PyRaise(ExcVal('TypeError', ()))
+    if k == 2:
+      raise PyRaise(ExcVal('ValueError', ()))
+    return ip.ctx.fresh(z3.IntSort(), self.hint + '.int')
+
+
 class WeakContainer(Model):
   """A list / set / dict whose contents are not tracked at all: every query answers with a
   fresh unconstrained value and every update is a no-op.  Sound over-approximation of a
@@ -843,6 +881,9 @@ class Namespace(Model):
     return "<ns %s>" % self.name
 
   def py_getattr(self, ip, name):
+    if name in getattr(self, 'missing', ()):
+      # carbon's Settings is a dict with __getattr__ = dict.__getitem__: an unset option raises KeyError
+      raise PyRaise(ExcVal('KeyError', (name,)))
     if name in self.attrs:
       return self.attrs[name]
     raise EngineError("%s.%s is not declared by the harness" % (self.name, name))
